@@ -108,21 +108,7 @@ def check(run: Run, prog: Program, model: Model, tier: str) -> None:
     run.floor("VALCHK", 12)
 
 
-LOSSY = {"builtins.round": "round()", "builtins.int": "int()", "math.floor": "floor()", "math.ceil": "ceil()",
-         "math.trunc": "trunc()", "builtins.abs": "abs()"}
-
-
-def _lossy_image(v: Any, payload_key: str) -> Optional[str]:
-    """Is `v` a non-identity numeric function of the payload (round/int/floor/ceil/abs applied to it)?"""
-    if isinstance(v, Term) and v.op == "call" and isinstance(v.args[0], str) and v.args[0] in LOSSY:
-        if any(isinstance(a, V) and payload_key in a.key() for a in v.args[1:]):
-            return LOSSY[v.args[0]]
-    if isinstance(v, Term) and v.op in ("bin", "call", "max", "min"):
-        for a in v.args:
-            r = _lossy_image(a, payload_key) if isinstance(a, V) else None
-            if r:
-                return r
-    return None
+from ..vtable import LOSSY, lossy_image as _lossy_image  # noqa: E402
 
 
 def _walk(t: Any) -> Any:
